@@ -66,6 +66,57 @@ def intendedLaunch (calls : List LCall) : Launch :=
     processes := calls.filterMap (fun c => match c with | .process t cmd pc => some (intendedProc t cmd pc) | _ => none),
     slices := calls.filterMap (fun c => match c with | .slice ps => some ps | _ => none) }
 
+/-- a require constructed with `Require::new(name)` and any number of `metadata(table)` calls carries the table given
+last (none: the empty table) -/
+def intendedRequire (name : String) (tables : List Table) : Req := ⟨name, lastOr [] tables⟩
+
+/-! ## `build()` anywhere in a call sequence (non-consuming builders: `ProcessBuilder`, `LaunchBuilder`)
+
+The builders are documented as non-consuming: `build()` hands out the value configured **so far** and the builder can be
+configured further and built again. So a call sequence may hold any number of `build()` calls, and each of them is meant
+to return the value of *all* calls made before it — whether or not a `build()` lies between them. -/
+
+/-- one entry of a call sequence: a configuring call, or `build()` -/
+inductive Step (α : Type) where
+  | call (c : α)
+  | build
+
+/-- for every `build()` of the sequence, in order: the configuring calls made before it (`before`: those made before
+the sequence starts) -/
+def callsBefore {α : Type} (before : List α) : List (Step α) → List (List α)
+  | [] => []
+  | .call c :: rest => callsBefore (before ++ [c]) rest
+  | .build :: rest => before :: callsBefore before rest
+
+/-- what the `build()` calls of a sequence are meant to return, in order -/
+def intendedBuilds {α β : Type} (intended : List α → β) (steps : List (Step α)) : List β :=
+  (callsBefore [] steps).map intended
+
+/-- the calls of `LaunchBuilder`: the singular ones, the plural ones ("adds multiple …": the singular call for each
+element in order), and a `ProcessBuilder` (`session`) whose calls may hold `build()`s, every built process — those and
+the one built at the end — being added with `process(..)` -/
+inductive LCallX where
+  | session (type : String) (command : List String) (steps : List (Step PCall))
+  | processes (ps : List (String × List String × List PCall))
+  | label (key value : String)
+  | labels (kvs : List (String × String))
+  | slice (paths : List String)
+  | slices (pss : List (List String))
+
+/-- the same construction said with singular calls only -/
+def LCallX.singular : LCallX → List LCall
+  | .session t c steps => (callsBefore [] (steps ++ [.build])).map (fun calls => LCall.process t c calls)
+  | .processes ps => ps.map (fun p => LCall.process p.1 p.2.1 p.2.2)
+  | .label k v => [.label k v]
+  | .labels kvs => kvs.map (fun kv => LCall.label kv.1 kv.2)
+  | .slice ps => [.slice ps]
+  | .slices pss => pss.map (fun ps => LCall.slice ps)
+
+def intendedLaunchX (calls : List LCallX) : Launch := intendedLaunch (calls.flatMap LCallX.singular)
+
+/-- the documents of one `LaunchBuilder`: one per `build()` of the sequence, and the one built at the end -/
+def intendedLaunchDocs (steps : List (Step LCallX)) : List Launch := intendedBuilds intendedLaunchX (steps ++ [.build])
+
 /-! ## exec.d output: the last value given for every key -/
 
 def lastValue (pairs : List (String × String)) (k : String) : Option String :=
